@@ -183,6 +183,7 @@ func (r *Report) Finish(c *Ctx, verifDir string) int {
 	sort.Strings(keys)
 	exit := 0
 	nviol := 0
+	skipped := 0
 	for _, k := range keys {
 		v := r.Viol[k]
 		var hit *known
@@ -193,6 +194,14 @@ func (r *Report) Finish(c *Ctx, verifDir string) int {
 		}
 		if hit != nil {
 			fmt.Printf("KNOWN-FINDING: property=%s key=%s %s (seen %d times; e.g. %s)\n", r.ID, k, hit.what, r.ViolCount[k], oneLine(v.Msg))
+			continue
+		}
+		if (strings.HasPrefix(k, "internal:vacuous") || strings.HasPrefix(k, "internal:c22-vacuous")) && !r.Exhaustive && os.Getenv("VERIF_STRICT_VACUITY") == "" {
+			// a non-vacuity counter stayed at zero in a run that was cut by a budget or deadline
+			// (e.g. on a loaded machine): the part that exercises it may simply not have run.
+			// It is an alarm only in a complete run (or with VERIF_STRICT_VACUITY=1).
+			skipped++
+			r.capped = append(r.capped, "non-vacuity counter not reached in this capped run (not judged): "+k)
 			continue
 		}
 		nviol++
@@ -210,7 +219,7 @@ func (r *Report) Finish(c *Ctx, verifDir string) int {
 	if len(r.capped) > 0 {
 		fmt.Printf("note: property=%s not exhaustive: %s\n", r.ID, strings.Join(r.capped, "; "))
 	}
-	fmt.Printf("done property=%s tier=%s violations=%d known=%d wall=%.1fs\n", r.ID, c.Tier, nviol, len(keys)-nviol, time.Since(c.Start).Seconds())
+	fmt.Printf("done property=%s tier=%s violations=%d known=%d wall=%.1fs\n", r.ID, c.Tier, nviol, len(keys)-nviol-skipped, time.Since(c.Start).Seconds())
 	return exit
 }
 
